@@ -134,6 +134,29 @@ theorem C07_mapsites_covered :
     siteTable.all (fun e => Facts.mapRangeSites.any (fun s => (s.1, s.2.1, s.2.2.1) = e.1)) = true ∧
     Facts.mapRangeSites.all (fun s => s.2.2.2 = 1) = true := by decide
 
+/-- the "distinct keys" argument (`dst[k] = v` for the distinct keys `k` of the ranged map: `putAll_perm`) needs the index of the
+    write to BE the range key: in the CURRENT source every map assignment in the body of a site of that kind is indexed by the
+    site's key variable itself (`dst[f(k)] = v` with a non-injective `f` - say a case-folding of header names - would let two
+    entries collide and the iteration order pick the survivor); and the `eachTable` site writes under the key of the enclosing
+    distinct-keys range.  Regenerated table `Facts.mapRangeBody`. -/
+theorem C07_distinct_key_writes :
+    Facts.mapRangeBody.all (fun s => match siteTable.lookup (s.1, s.2.1, s.2.2.1) with
+      | some .distinctKeys => s.2.2.2.2.all (fun ix => ix = s.2.2.2.1)
+      | _ => true) = true ∧
+    (Facts.mapRangeBody.filter (fun s => s.1 = "internal/restclient" && s.2.1 = "(*Generator).cookClient"
+        && (s.2.2.1 = "headers" || s.2.2.1 = "g.data.DefaultHeaders"))).map (fun s => (s.2.2.2.1, s.2.2.2.2))
+      = [("_", ["k"]), ("k", ["k"])] := by decide
+
+/-- nothing but these five sites sorts anything in the CURRENT source: the success message (main), the values of one enum type
+    (makeStr), the pointer-path lists of the mapper's nil checks.  In particular the list of types of an all-in-one run
+    (`ListTypes`) is NOT sorted: the types are processed in declaration order, which with `-getset` decides which accessor
+    interfaces an embedding type sees (`GenState.depsFirst`).  Regenerated table `Facts.sortSites`. -/
+theorem C07_sort_sites :
+    Facts.sortSites =
+      [("cmd/shoot", "main", "sort.Strings"), ("internal/enumer", "(Generator).makeStr", "sort.Slice"),
+       ("internal/mapper", "(Generator).makeReadCond", "sort.Strings"), ("internal/mapper", "(Generator).nilCheckWrite", "sort.Strings"),
+       ("internal/mapper", "(Generator).nilCheckWrite", "sort.Strings")] := by decide
+
 /-- which sites still need a condition on the input: only the directory re-parse of `extractStructFields` (finding
     F_structTwice) and the `-v` debug line of LoadPackage (stderr, not file bytes); every other site has its
     order-independence lemma for ALL inputs (the inputs being maps: distinct keys).
